@@ -212,7 +212,8 @@ Proof.
       destruct (expecting s); [inversion H; subst; left; reflexivity|].
       match type of H with (if ?c then _ else _) = _ => destruct c end; [inversion H; subst; left; reflexivity|].
       destruct l; cbn [negb] in H; [|inversion H; subst; left; reflexivity].
-      unfold t_add in H. destruct (negb (s_class r =? cIN)); [inversion H; subst; left; reflexivity|].
+      unfold t_add in H. destruct (s_data r) as [|d0 ds0] eqn:Ed; [inversion H; subst; left; reflexivity|]. rewrite <- Ed in H.
+      destruct (negb (s_class r =? cIN)); [inversion H; subst; left; reflexivity|].
       destruct ((s_type r =? tSOA) && negb (s_name r =? origin)); [inversion H; subst; left; reflexivity|].
       cbn [res_of] in H. inversion H; subst. right. exists s0. split; [reflexivity|].
       cbn [pub set_done set_txn set_pub].
